@@ -93,4 +93,15 @@ pub mod protobuf;
 /// crate-private items so an external harness can call them directly.
 #[cfg(rten_verif)]
 #[doc(hidden)]
-pub mod verif {}
+pub mod verif {
+    use std::sync::atomic::{AtomicU64, Ordering};
+
+    /// Work counter of the protobuf decoder (C38): +1 per `LimitReader::{read_varint, read_i32,
+    /// read_i64}` call, +len per `ValueReader::read_bytes` buffer that is allocated and filled.
+    pub static DECODE_STEPS: AtomicU64 = AtomicU64::new(0);
+
+    #[inline]
+    pub fn count_steps(n: u64) {
+        DECODE_STEPS.fetch_add(n, Ordering::Relaxed);
+    }
+}
